@@ -48,6 +48,10 @@ def models():
     s = Spec(nx=2, nu=1, ode=[X(1), U(0)], note='double integrator, inf_der rate bound')
     s.cons = [Con('<=<=', Fr(-3, 10), Fr(3, 10), mid=inf_der(X(0)), grid='inf'), Con('==', at_t0(X(0)), 0)]
     out.append(s)
+    # include_first=False has no meaning for a certificate over whole steps: the first step stays certified
+    s = Spec(nx=2, nu=1, ode=[X(1), U(0)], note='double integrator, include_first=False')
+    s.cons = [Con('<=', X(0), 1, grid='inf', include_first=False), Con('>=', X(0) * 2 + X(1), -3, grid='inf', include_first=False, include_last=False), Con('==', at_t0(X(0)), 0)]
+    out.append(s)
     # explicit time in the body (time runs linearly over each step: the certificate must carry it as a polynomial, not freeze it)
     s = Spec(nx=2, nu=1, ode=[X(1), U(0)], note='double integrator, explicit time in the body')
     s.cons = [Con('<=', X(1) + t * Fr(3, 10), Fr(6, 10), grid='inf'), Con('>=', X(0) - t, -3, grid='inf'), Con('==', at_t0(X(0)), 0)]
